@@ -463,7 +463,16 @@ def call_result(cases, check_impl=None, nontrivial=None, rule="", model_args=Non
     carrier = 0
     for fn, args, line in (with_bytes if len(with_bytes) <= 1500 else pick.sample(with_bytes, 1500)):
         a2 = tuple(bytearray(a) if isinstance(a, bytes) else a for a in args)
-        i = core.impl_call(fn, a2)
+        try:
+            raw = (core.FUNCS[fn] if isinstance(fn, str) else fn)(*a2)
+            i = ("OK", core.show(raw))
+            if any(raw is a for a in a2 if isinstance(a, bytearray)) or isinstance(raw, (bytearray, memoryview)):
+                viol.append({"what": "the result is the caller's own mutable argument object (or a mutable view): a later change to the caller's "
+                                     "buffer changes the 'result'", "expected": "a fresh immutable value", "observed": type(raw).__name__ + (
+                                         " - the argument object itself" if any(raw is a for a in a2) else ""),
+                             "input": {"fn": fn, "args": [core.show(a) for a in args], "types": [arg_type(a) for a in a2]}})
+        except Exception as e:  # noqa: BLE001
+            i = ("ERR", core.bucket(e))
         carrier += 1
         if any(bytes(x) != y for x, y in zip(a2, args) if isinstance(y, bytes)):
             viol.append({"what": "call modified a bytearray argument", "expected": [core.show(a) for a in args],
@@ -514,6 +523,38 @@ def call_result(cases, check_impl=None, nontrivial=None, rule="", model_args=Non
                         v["input"] = {"fn": fn, "args": [core.show(a) for a in args]}
                         v["note"] = "failed when the run's calls were executed concurrently by 8 threads (passes single-threaded?)"
                         viol.append(v)
+    # fifth pass: the same calls in an interpreter that claims to be big-endian (harness/bigendian.py): nothing may depend
+    # on the host byte order - except tools.xor with a mask shorter than the data, whose pinned behaviour does (Appendix A)
+    import pickle as _pickle
+    import subprocess as _subprocess
+    import tempfile as _tempfile
+    be = [u for u in uniq if not (u[0] == "xor" and len(u[1][1]) < len(u[1][0]))]
+    be = be if len(be) <= 1200 else pick.sample(be, 1200)
+    try:
+        with _tempfile.TemporaryDirectory() as td:
+            _pickle.dump([(fn, args) for fn, args, _ in be], open(os.path.join(td, "in"), "wb"))
+            _subprocess.run([_sys.executable, "-W", "ignore", os.path.join(VERIF, "harness", "bigendian.py"), os.path.join(td, "in"),
+                             os.path.join(td, "out")], check=True, capture_output=True, timeout=600)
+            be_out = _pickle.load(open(os.path.join(td, "out"), "rb"))
+    except Exception as e:  # noqa: BLE001
+        be_out = None
+        diffs.append({"pass": "pretended big-endian host", "error": repr(e)[:300]})
+    if be_out is not None:
+        nbe = 0
+        for (fn, args, line), i in zip(be, be_out):
+            if i != mres[line]:
+                nbe += 1
+                if nbe <= 10:
+                    diffs.append({"fn": fn, "args": [core.show(a) for a in args], "impl": list(i), "model": list(mres[line]),
+                                  "pass": "interpreter with sys.byteorder = 'big'"})
+                    if check_impl:
+                        v = check_impl(fn, args, i)
+                        if v:
+                            v = dict(v)
+                            v["input"] = {"fn": fn, "args": [core.show(a) for a in args]}
+                            v["note"] = "only on a big-endian host (sys.byteorder == 'big'): python harness/bigendian.py"
+                            viol.append(v)
+        dist["pass:big_endian_host"] = len(be)
     dist["pass:bytearray_carrier"] = carrier
     dist["pass:threads8"] = len(work)
     return {"evaluations": len(cases) + redo + carrier + len(work), "distinct_nontrivial": nontriv, "rule": rule, "samples": samples,
